@@ -408,3 +408,25 @@ theorem filter_step_spec {st : St} (hinv : Inv st) {k : Nat} {s : Sig} {a b c d 
     exact setAll_cell_mem hid
 
 end Sig
+
+namespace Sig
+
+/-- `values` only looks at the cells reachable from the object -/
+theorem valuesOf_congr {h h' : Heap} {s : Sig} (hc : ∀ id ∈ s.reach, h'.cell id = h.cell id) :
+    valuesOf h' s = valuesOf h s := by
+  unfold valuesOf
+  cases hb : s.body with
+  | arr v => simp only; rw [hc v (by simp [Sig.reach, hb])]
+  | fn a b c d e bi fi =>
+    simp only
+    congr 1
+    simp only [readF, hb]
+    rw [hc s.times (by simp [Sig.reach]), hc a (by simp [Sig.reach, hb]), hc b (by simp [Sig.reach, hb]),
+      hc d (by simp [Sig.reach, hb])]
+    congr 1
+    · apply List.map_congr_left
+      intro id hid; exact hc id (by simp [Sig.reach, hb, hid])
+    · apply List.map_congr_left
+      intro id hid; exact hc id (by simp [Sig.reach, hb, hid])
+
+end Sig
